@@ -528,3 +528,58 @@ PROPS["C03"]["rule"] = PROPS["C03"]["rule"] + (" || alias (vh_conc): 2-4 session
 # CDisasmEnc (large files judged through the C14 round-trip theorem): the lemma that justifies it
 for _p in ("C14", "C15"):
     PROPS[_p]["files"] = list(dict.fromkeys(PROPS[_p]["files"] + ["proofs/CodecCorrProofs.v"]))
+
+# C07 / C06: the alias driver (see C03, C08).  C07: a long-lived engine and per-request engines over ONE resource with shared slices, and
+# new sessions arriving through one reused WithFlush persister, must answer like the solo runs; C06: the flag field of a session that
+# arrives through a reused WithFlush persister has the configured size
+PROPS["C07"]["drivers"] = PROPS["C07"]["drivers"] + [{"name": "alias", "bin": "vh_conc", "env": {"GORACE": "halt_on_error=1 exitcode=66"}, "n_quick": 60, "n_thorough": 600}]
+PROPS["C07"]["model_files"] = list(dict.fromkeys(PROPS["C07"]["model_files"] + SLICE_MODEL))
+PROPS["C07"]["rule"] = PROPS["C07"]["rule"] + (" || alias (vh_conc): 2-4 sessions interleaved over ONE resource handing out its stored slices, a third of the cases through ONE reused WithFlush persister: "
+    "every session's responses and stored session must equal its solo run (long-lived and per-request engines alike)")
+PROPS["C06"]["drivers"] = PROPS["C06"]["drivers"] + [{"name": "alias", "bin": "vh_conc", "args": ["-replay", "only:shared-persister"], "env": {"GORACE": "halt_on_error=1 exitcode=66"}, "n_quick": 40, "n_thorough": 400}]
+PROPS["C06"]["model_files"] = list(dict.fromkeys(PROPS["C06"]["model_files"] + SLICE_MODEL))
+PROPS["C06"]["rule"] = PROPS["C06"]["rule"] + (" || alias (vh_conc, shape shared-persister only): sessions arriving through ONE reused WithFlush persister have the configured flag count; flags set in the first request of a new session are stored")
+
+# C09: the cache a session is saved with comes back from the store (persist driver, class-0 clauses of its monitor)
+PROPS["C09"]["drivers"] = PROPS["C09"]["drivers"] + [{"name": "persist", "n_quick": 100, "n_thorough": 1000}]
+PROPS["C09"]["model_files"] = list(dict.fromkeys(PROPS["C09"]["model_files"] + PERSIST_MODEL))
+PROPS["C09"]["rule"] = PROPS["C09"]["rule"] + (" || persist: histories of WithContent / Save / Load / WithFlush on one real persist.Persister; after a Load the cache (frames, per-symbol limits, usage, capacity, "
+    "spare part of the frame array) must be the one last saved under that key")
+
+# C17: input formats registered by the application (engine.AddValidInput), outside the engine model
+PROPS["C17"]["drivers"] = PROPS["C17"]["drivers"] + [{"name": "validinput", "n_quick": 300, "n_thorough": 3000}]
+PROPS["C17"]["model_files"] = list(dict.fromkeys(PROPS["C17"]["model_files"] + ["model/NavModel.v", "corr/ValidInputCorr.v"]))
+PROPS["C17"]["rule"] = PROPS["C17"]["rule"] + (" || validinput: two formats registered with engine.AddValidInput (^\\*[0-9*]+#$ and ^#[0-9]{1,4}$) in the driver's own process; vm.ValidInput called on service codes, "
+    "near misses and every combination with leading/trailing blanks, CR, LF, NUL, and the same inputs sent as the second request of a stored session: the format index must be the model's, an input matching no format "
+    "(or over-long) must be refused, and a refused input must leave the stored session unchanged")
+
+# C02: engine.Loop must hand Exec the selector as typed, without CR / blanks (browse walks over paged sinks)
+PROPS["C02"]["drivers"] = PROPS["C02"]["drivers"] + [{"name": "loop", "n_quick": 150, "n_thorough": 1200}]          # Viol = loop_violations_c02, Mism = loop_mismatches
+PROPS["C02"]["model_files"] = list(dict.fromkeys(PROPS["C02"]["model_files"] + ENGINE_MODEL + LOOP_MODEL))       # LoopCorr needs corr/EngineMon.v (in ENGINE_MODEL)
+PROPS["C02"]["rule"] = PROPS["C02"]["rule"] + (" || interactive driver (engine.Loop, see C20): every generated case is a browse walk — an application whose first page offers the 'next' entry, walked with the browse "
+    "selectors 11 / 22 on lines ending in CR LF or padded with blanks, tabs, VT, FF, NBSP, U+3000; plus the corpus walks over sizer-sink-name, menu-sink, browse-past-end, sink-name-reused. Monitor: the input handed to Exec is "
+    "the typed line without the white space around it, and the page index observed after every request moves one step at a time")
+
+# C12: the record engine.Loop leaves in the store (Finish exactly once; WithFlush must not overwrite it with the flushed state)
+PROPS["C12"]["drivers"] = PROPS["C12"]["drivers"] + [{"name": "loop", "n_quick": 150, "n_thorough": 1200}]          # Viol = loop_violations_c12, Mism = loop_mismatches
+PROPS["C12"]["model_files"] = list(dict.fromkeys(PROPS["C12"]["model_files"] + ENGINE_MODEL + LOOP_MODEL))
+PROPS["C12"]["rule"] = PROPS["C12"]["rule"] + (" || interactive driver (engine.Loop, see C20): every generated case runs Loop over a persister — memory or filesystem store, plain or WithFlush, no record at the start — "
+    "plus 15 corpus sessions that the engine ends (graceful end, TERMINATE, abnormal end, stop on the first request) or that end on EOF / an error; the record found in the store afterwards must be the session observed after the "
+    "last request (one Finish; compared with the model's loop_stored and, observation only, by loop_c12_ok)")
+
+# round-7 follow-ups of the agents pg / asm / conc / vmdecode (rule texts)
+PROPS["C13"]["rule"] = PROPS["C13"]["rule"] + (" || Connect-again (Connect on the already connected store) is a tenth symbol of the exhaustive alphabet and of the adversarial stream, inside and outside Start/Stop, with fault "
+    "scripts active: the model predicts no driver call, no effect and result nil; a panic of the real call is recorded as a Panic result; 5 corpus cases")
+PROPS["C16"]["rule"] = PROPS["C16"]["rule"] + " || sources with two or three LOAD lines for the same symbol (pool of three symbols; equal and different sizes; adjacent, separated by other lines, and across the menu block), 4 fixed cases and n/10 generated"
+for _p in ("C14", "C15"):
+    PROPS[_p]["rule"] = PROPS[_p]["rule"] + (" || every ToString listing is produced by ONE long-lived ParseHandler immediately after a ToString call on it that listed one instruction and then failed to decode "
+        "(00 07 00 06 03 66), and compared with a fresh handler's result; files of 64 KiB and more holding the encoding of a known program are judged through the C14 round-trip theorem (CDisasmEnc)")
+PROPS["C15"]["rule"] = PROPS["C15"]["rule"] + (" || vmrun: the driver's resource has one entry function (lds -> 'x') and a case may run other code in an earlier Run of the same Vm (state and cache carried over): LOAD lds n, "
+    "0-2 generated instructions, then LOAD of the cached symbol (or of an uncached control symbol) whose size argument is missing, one byte short, or has a width byte 5..255, as the last bytes of the code and followed by more bytes")
+PROPS["C19"]["rule"] = PROPS["C19"]["rule"] + (" || race: one run in ten in the GETTEXT shape: all sessions' engines share ONE resource.PoResource over a locale directory the driver writes (only eng and nor registered), session "
+    "languages eng / nor / fra (file present, never registered) / swa (no file) / none; compared with solo runs on a PoResource of their own and with the engine model over the equivalent plain application")
+PROPS["C19"]["assumptions"] = PROPS["C19"]["assumptions"] + ["a PoResource is shared between sessions only after all WithLanguage calls (set-up); gotext's own locking is trusted (not modelled)"]
+PROPS["C12"]["rule"] = PROPS["C12"]["rule"] + (" || shared-handle-history: one history served request by request on the filesystem store whose handle the application also uses for data of another type between creating the "
+    "persister and the request (and connects again now and then), and on a memory store used for nothing else: responses and final record must be equal (FSame)")
+PROPS["C10"]["rule"] = PROPS["C10"]["rule"] + (" || a quarter of the valid histories pass the language in the CALLER'S CONTEXT instead of SetLanguage; application-defined data types (9, 12, 33, 48, 64, 66, 128, 192); "
+    "Connect-again inside histories; keys tmp / foo.tmp / a session id used as key; SetLanguage with the value lang.LanguageFromCode returns for eng, nor, swa and the ISO 639-3-only codes guz, luy, mer")
